@@ -242,8 +242,18 @@ def build_deps_cache(force=False):
     dst = deps_cache_dir()
     if os.path.isdir(dst) and not force:
         return dst
-    log("building dependency cache %s" % dst)
     os.makedirs(CACHE_DIR, exist_ok=True)
+    import fcntl
+    lockf = open(os.path.join(CACHE_DIR, "build.lock"), "w")
+    fcntl.flock(lockf, fcntl.LOCK_EX)   # concurrent checks: one builds, the others wait
+    if os.path.isdir(dst) and not force:
+        lockf.close()
+        return dst
+    # drop caches of older model / lock-file versions
+    for old in os.listdir(CACHE_DIR):
+        if old.startswith("kani-target-") and os.path.join(CACHE_DIR, old) != dst:
+            shutil.rmtree(os.path.join(CACHE_DIR, old), ignore_errors=True)
+    log("building dependency cache %s" % dst)
     d, src = make_scratch("deps")
     try:
         tmp_t = dst + ".tmp"
@@ -258,6 +268,7 @@ def build_deps_cache(force=False):
         log("dependency cache built in %.0f s" % secs)
     finally:
         shutil.rmtree(d, ignore_errors=True)
+        lockf.close()
     return dst
 
 
@@ -583,6 +594,39 @@ def match_known(prop, harness_name, res):
 
 
 # ----------------------------------------------------------------------------------------
+# SMT lemma used by the vendored rand model
+# ----------------------------------------------------------------------------------------
+
+LEMMA_WMUL = """(set-logic ALL)
+(declare-const x (_ BitVec {w}))
+(define-fun wide () (_ BitVec {w2}) (bvmul ((_ zero_extend {w}) x) ((_ zero_extend {w}) (bvnot (_ bv0 {w})))))
+(define-fun hi () (_ BitVec {w}) ((_ extract {h} {w}) wide))
+(define-fun lo () (_ BitVec {w}) ((_ extract {l} 0) wide))
+(assert (not (and (=> (distinct x (_ bv0 {w})) (and (= hi (bvsub x (_ bv1 {w}))) (= lo (bvneg x)) (bvuge lo (_ bv1 {w}))))
+                  (=> (= x (_ bv0 {w})) (= lo (_ bv0 {w}))))))
+(check-sat)
+"""
+
+
+def lemma_wmul_allones(workdir):
+    """the identity the vendored rand model relies on for ranges 2^w - 1 (w = 32, 64):
+    for x != 0: hi(x * (2^w - 1)) = x - 1, lo = -x >= thresh = 1;  for x = 0: lo = 0 < thresh (rejected)"""
+    res = []
+    for w in (32, 64):
+        path = os.path.join(workdir, "lemma_wmul_%d.smt2" % w)
+        with open(path, "w") as f:
+            f.write(LEMMA_WMUL.format(w=w, w2=2 * w, h=2 * w - 1, l=w - 1))
+        ans = []
+        for nm, cmd in (("cvc5-bv-as-int", ["cvc5", "--lang", "smt2", "--solve-bv-as-int=sum"]), ("cvc5", ["cvc5", "--lang", "smt2"]), ("z3", ["/usr/bin/z3", "-smt2"])):
+            rc, out, secs, to = sh(cmd + [path], timeout=10)
+            first = out.strip().splitlines()[0] if out.strip() else ""
+            ans.append((nm, "timeout" if to else ("error" if "(error" in out else first), round(secs, 2)))
+        ok = any(a[1] == "unsat" for a in ans) and not any(a[1] in ("sat", "error") for a in ans)
+        res.append({"lemma": "wmul by 2^%d-1: hi = x-1, lo = -x, rejected iff x = 0" % w, "holds": ok, "solvers": ans})
+    return res
+
+
+# ----------------------------------------------------------------------------------------
 # a whole check
 # ----------------------------------------------------------------------------------------
 
@@ -606,12 +650,15 @@ def run_property(prop, spec, tier, seed, only=None, keep=False, jobs=None):
     known_hits = []
     undecided = []
     errors = []
+    lemmas = []
     d = None
     try:
         cache = build_deps_cache()
         d, src = make_scratch(prop.lower())
         logdir = os.path.join(d, "logs")
         os.makedirs(logdir)
+        for lf in spec.get("lemmas", []):
+            lemmas += lf(d)
         nworkers = max(1, min(jobs or NCPU, len(hs)))
         # longest first
         order = sorted(hs, key=lambda h: -h.timeout)
@@ -673,8 +720,12 @@ def run_property(prop, spec, tier, seed, only=None, keep=False, jobs=None):
             undecided.append((h, r))
         else:
             errors.append((h, r))
+    for lm in lemmas:
+        if not lm["holds"]:
+            hh = Harness("lemma", desc=lm["lemma"])
+            undecided.append((hh, {"verdict": "undecided", "why": "SMT lemma used by the environment model not proved: %s %s" % (lm["lemma"], lm["solvers"])}))
     return dict(results=results, violations=violations, known_hits=known_hits, undecided=undecided,
-                errors=errors, wall_s=time.time() - t0, harnesses=hs)
+                errors=errors, wall_s=time.time() - t0, harnesses=hs, lemmas=lemmas)
 
 
 def ub_only(r):
@@ -727,6 +778,7 @@ def write_evidence(prop, spec, tier, seed, run, extra_cov=None):
         "repo_head": repo_head(), "repo_fingerprint": repo_fingerprint(),
         "engine": spec.get("engine", "Kani 0.68.0 / CBMC 6.11.0 / CaDiCaL"),
         "exhaustive": False,
+        "smt_lemmas": run.get("lemmas", []),
     }
     if extra_cov:
         cov.update(extra_cov)
